@@ -485,6 +485,11 @@ func (e *specEnv) selector(k *ast.SelectorExpr) Val {
 		if curIsPtr {
 			b := cur
 			cur = e.f.load(e.state(), Val{P: &Ptr{Kind: PField, Base: &b, Field: i, Elem: ft}, Typ: types.NewPointer(ft)})
+			if cur.T != nil && isGround(cur.T, nil) {
+				// a stored field holds a value of its Go type (slice lengths are
+				// non-negative, sized integers are in range)
+				c.addHyp(c.wellTyped(cur.T, ft))
+			}
 		} else {
 			cur = Val{T: c.structField(curT, cst, cur.T, i), Typ: ft}
 		}
